@@ -235,6 +235,25 @@ def generic_cases(rng, tier):
     return cases, {"generic_trait_histories": len(cases)}
 
 
+def fwd_cases(rng, tier):
+    """'104 <handle> | calls': #[cglue_forward] — Fwd(&mut T), Fwd(Box<T>) and opaque objects around a Fwd(&mut T) (harness/prog/src/fwd.rs)"""
+    fixed = [[0, 1], [0, 9], [1, 2, 77], [1, 8, 1], [0, 2], [2, 3], [0, 2], [2, 0], [0, 0], [3], [2, 5], [4, 0, 4, 9], [4, 4, 0, 9], [4, 1, 7, 3], [0, 0], [5, 255], [5, 70000], [5, 3]]
+    cases = ["104 %d | %s" % (k, " ; ".join(" ".join(map(str, o)) for o in fixed)) for k in (0, 1, 2, 3)]
+    n = 40 if tier == "quick" else 1000
+    for _ in range(n):
+        ops = []
+        for _ in range(rng.range(1, 30)):
+            c = rng.below(6)
+            if c == 0: ops.append([0, rng.range(0, 6)])
+            elif c == 1: ops.append([1, rng.range(0, 6), rng.range(0, 2 ** 32 - 1)])
+            elif c == 2: ops.append([2, rng.range(0, 7)])
+            elif c == 3: ops.append([3])
+            elif c == 4: ops.append([4, rng.range(0, 6), rng.range(0, 6), rng.range(-1000, 1000)])
+            else: ops.append([5, rng.choice([0, 1, 255, 256, 2 ** 32 - 1, rng.range(0, 10 ** 6)])])
+        cases.append("104 %d | %s" % (rng.below(4), " ; ".join(" ".join(map(str, o)) for o in ops)))
+    return cases, {"forward_histories": len(cases)}
+
+
 def life_cases(rng, tier, with_borrowed=True):
     cases = ["106 | 0 1 ; 1 0 ; 2 0 ; 2 0 ; 7 1 ; 4 0 ; 1 3 ; 7 3", "106 | 0 1 ; 5 0", "106 | 8 5 ; 6 0 ; 6 1 ; 7 0", "106 | 10 7 1 ; 11 0 ; 6 1 ; 12 1 ; 11 3",
              "106 | 10 7 0 ; 11 0", "106 | 13 4 ; 14 5", "106 | 0 2 ; 2 0 ; 5 0 ; 1 1", "106 | 15 -77 ; 1 0 ; 7 0", "106 | 15 -77 ; 15 -77 ; 7 1",
